@@ -50,6 +50,7 @@ class Check:
         self.seed = seed
         self.t0 = time.time()
         self.obligations: List[Obligation] = []
+        self.unknowns: List[Obligation] = []
         self.notes: List[str] = []
         self.rules_desc: Dict[str, str] = {}
         self.floors: Dict[str, int] = {}
@@ -75,6 +76,20 @@ class Check:
             self.fail(rule, instance, site, reason_fail, construct)
         return cond
 
+    def unknown(self, rule, instance, site="", reason="", construct=""):
+        """the construct the rule is about was not recognised in any normal form: neither discharged nor violated -> exit 2"""
+        self.unknowns.append(Obligation(rule, instance, False, site, reason, norm_src(construct) if construct else ""))
+
+    def decide(self, rule, instance, holds: bool, recognised: bool, site="", reason_ok="", reason_fail="", construct=""):
+        """holds -> discharged; recognised but not holding -> violation; not recognised -> unknown idiom (analysis error, never a false alarm)"""
+        if holds:
+            self.ok(rule, instance, site, reason_ok, construct)
+        elif recognised:
+            self.fail(rule, instance, site, reason_fail, construct)
+        else:
+            self.unknown(rule, instance, site, "construct not recognised in any normal form (" + reason_fail[:160] + ")", construct)
+        return holds
+
     def note(self, text: str):
         self.notes.append(text)
 
@@ -85,12 +100,24 @@ class Check:
         from .index import AnchorError
         # floors: a rule matching fewer sites than confirmed by hand is an analysis error
         counts: Dict[str, int] = {}
-        for o in self.obligations:
+        for o in self.obligations + self.unknowns:
             counts[o.rule] = counts.get(o.rule, 0) + 1
+        if partial_error is None and self.unknowns:
+            partial_error = "; ".join(f"{u.rule} {u.instance}: {u.reason}" for u in self.unknowns[:4]) + \
+                (f" (+{len(self.unknowns) - 4} more)" if len(self.unknowns) > 4 else "")
+            if not any((not o.ok) and self._known_entry(o) is None for o in self.obligations):
+                for u in self.unknowns:
+                    print(f"{u.site} rule={u.rule} instance={u.instance} UNRECOGNISED: {u.reason}")
+                print(f"ANALYSIS-ERROR property={self.prop}: {len(self.unknowns)} construct(s) not recognised")
+                self._write_evidence(repo, [], [], error=partial_error)
+                return 2
+            print(f"ANALYSIS-INCOMPLETE property={self.prop}: {partial_error} (violations found are reported)")
         if partial_error is None:
             for rid, fl in self.floors.items():
                 if counts.get(rid, 0) < fl:
                     raise AnchorError(f"rule {rid} matched {counts.get(rid, 0)} instance(s), floor confirmed by hand is {fl}")
+        elif self.unknowns and any((not o.ok) and self._known_entry(o) is None for o in self.obligations):
+            pass
         elif not any((not o.ok) and self._known_entry(o) is None for o in self.obligations):
             print(f"ANALYSIS-ERROR property={self.prop}: {partial_error}")
             self._write_evidence(repo, [], [], error=partial_error)
